@@ -457,9 +457,10 @@ func (m *Machine) intrinsic(s *State, f *Frame, x *ssa.Call, name string, callee
 		f.env[x] = v
 		s.pc = append(s.pc, c.Cmp("bvsge", sc(v), c.BV(0, 64)), c.Cmp("bvslt", sc(v), sc(args[0])))
 		return nil, true
-	case name == "fmt.Sprintf" || name == "fmt.Sprint":
-		f.env[x] = StrV{} // spike: only used for labels/log text on the paths exercised
-		return nil, true
+	case strings.HasPrefix(name, "fmt.") || name == "github.com/pkg/errors.Errorf":
+		if m.fmtIntrinsic(s, f, x, name, args) {
+			return nil, true
+		}
 	case short == "vGo":
 		fv := args[1].(FuncV)
 		m.spawn(s, fv.fn, nil, fv.free)
